@@ -1,7 +1,9 @@
-"""Replay files: JSON {kind, property, cfg, events, note}. kind 'filter' is judged by oracle.judge."""
+"""Replay files: JSON {kind, property, ...}. Each kind is judged on the implementation by the
+property's oracle. `run_replay(rep)` returns a list of violation messages (empty = holds)."""
 import json
+import math
 import sys
-from . import oracle
+from . import oracle, oracle_text, impl
 
 
 def load(path):
@@ -9,15 +11,21 @@ def load(path):
         return json.load(f)
 
 
-def events_of(rep):
-    return [tuple(e) for e in rep["events"]]
+def events_of(rep, key="events"):
+    out = []
+    for e in rep.get(key, []):
+        e = list(e)
+        if e[0] == "addregion":
+            e[1] = tuple(e[1])
+        out.append(tuple(e))
+    return out
 
 
 def cfg_of(rep):
     cfg = dict(rep.get("cfg") or {})
     if "regions" in cfg:
         cfg["regions"] = [tuple(s) for s in cfg["regions"]]
-    if "at" in cfg:
+    if "at" in cfg and cfg["at"] is not None:
         cfg["at"] = [tuple(a) for a in cfg["at"]]
     return cfg
 
@@ -25,19 +33,59 @@ def cfg_of(rep):
 def run_filter_replay(rep, props=None):
     cfg = cfg_of(rep)
     evs = events_of(rep)
-    evs = [e if e[0] != "addregion" else ("addregion", tuple(e[1])) for e in evs]
     res, _h = oracle.run_events(cfg, evs)
     v = oracle.judge(cfg, evs, res, props or [rep["property"]])
     return [x for x in v if x[0] != "SKIP"], res
 
 
+def run_replay(rep):
+    kind = rep.get("kind", "filter")
+    if kind == "filter":
+        v, _res = run_filter_replay(rep)
+        return ["step %d: %s" % (i, m) for (_p, i, m) in v]
+    if kind == "lossless":
+        return oracle_text.c18_lossless(rep["text"])
+    if kind == "checksum":
+        return oracle_text.c18_checksum(rep["line"], rep["lineno"])
+    if kind == "idempotent":
+        return oracle_text.c18_idempotent(rep["line"])
+    if kind == "reader":
+        return oracle_text.c19_reader(rep["params"])
+    if kind == "stream":
+        v = oracle_text.c20_stream(cfg_of(rep), events_of(rep, "pre"), rep["lines"])
+        return ["line %d: %s" % (i, m) for (i, m) in v]
+    if kind == "arccenter":
+        return oracle.c16_centre(rep["start"], rep["end"], rep["radius"], rep["clockwise"])
+    if kind == "reencode":
+        from . import oracle_geo
+        return oracle_geo.c08_reencode(None, [tuple(x) for x in rep["regions"]],
+                                       [tuple(o) for o in rep["ops"]], rep["variant"], rep["at_index"])
+    if kind == "translate":
+        from . import oracle_geo
+        return oracle_geo.c08_translate([tuple(x) for x in rep["regions"]],
+                                        [tuple(o) for o in rep["ops"]], tuple(rep["vec"]))
+    if kind == "c10":
+        from . import oracle_plugin
+        return oracle_plugin.c10_fresh(rep["settings"], rep["history"], rep["program"])
+    if kind == "region_point":
+        from . import oracle_geo
+        return oracle_geo.c17_point(tuple(rep["a"]), rep["x"], rep["y"])
+    if kind == "region_contains":
+        from . import oracle_geo
+        return oracle_geo.c17_contains_region(tuple(rep["a"]), tuple(rep["b"]))
+    if kind == "arc":
+        from . import oracle_geo
+        return oracle_geo.c16_arc(tuple(rep["start"]), tuple(rep["centre"]), rep["sweep"], rep["cw"])
+    if kind == "plugin":
+        from . import oracle_plugin
+        return oracle_plugin.judge_plugin(rep["settings"], rep["ops"], [rep["property"]])
+    raise ValueError("unknown replay kind %r" % kind)
+
+
 if __name__ == "__main__":
     for p in sys.argv[1:]:
         rep = load(p)
-        v, res = run_filter_replay(rep)
+        v = run_replay(rep)
         print(p, "->", "VIOLATES" if v else "ok")
         for x in v[:3]:
             print("    ", x)
-        if "-v" in sys.argv:
-            for e, r in zip(rep["events"], res):
-                print("   ", e, "->", r)
